@@ -3,6 +3,7 @@ import itertools
 
 ID = "C26"
 PROP_FILE = "Props/C26.v"
+SA_FORMS = ["list", "tuple", "set", "frozenset", "dictkeys"]
 THEOREMS = ["C26_total", "C26_closed_form", "C26_permutation", "C26_unsnaked_product_order",
             "C26_turnaround", "C26_continuity", "C26_first_flag_irrelevant"]
 COQ_IMPORTS = "From BV Require Import Pure.Snake Pure.Patterns."
@@ -63,7 +64,9 @@ def cases(rng, tier):
                 small.append({"via": "outer_list_product", "args": _olp_tokens(lens), "snake_axes": sa})
             for r in range(0, n + 1):
                 for sub in itertools.combinations(range(n), r):
-                    small.append({"via": "outer_list_product", "args": _olp_tokens(lens), "snake_axes": list(sub)})
+                    # the iterable of motors in every container form a caller may use (same meaning as the list)
+                    small.append({"via": "outer_list_product", "args": _olp_tokens(lens), "snake_axes": list(sub),
+                                  "sa_form": SA_FORMS[len(small) % len(SA_FORMS)]})
     # argument counts for which both patterns have the right length: 24 = 6*4 = 4 + 4*5, 44 = 11*4 = 4 + 8*5
     for fl in itertools.product([False, True], repeat=4):
         small.append({"via": "outer_product", "pattern": 2, "args": _op_tokens([2, 1, 2, 1, 2], [False] + list(fl), 2)})
@@ -216,6 +219,9 @@ def impl(case):
             for k in sa:
                 _build_args([["m", k]], motors)
             sa = [motors[k] for k in sa]
+            form = case.get("sa_form", "list")
+            sa = {"list": list, "tuple": tuple, "set": set, "frozenset": frozenset,
+                  "dictkeys": lambda l: dict.fromkeys(l).keys()}[form](sa)
         return _project(plan_patterns.outer_list_product(args, sa), motors)
     except ValueError:
         return {"error": "ValueError"}
